@@ -75,7 +75,8 @@ def _register():
 
 def plan(tier, seed):
     return [{'space': 'table', 'cls': c, 'weight': 1} for c in CLASSES] + \
-        [{'space': 'context', 'weight': 1}]
+        [{'space': 'context', 'weight': 1},
+         {'space': 'alternating', 'weight': 1}]
 
 
 def expected_class(cls):
@@ -212,6 +213,8 @@ def run(job, seed):
     _register()
     if job['space'] == 'context':
         return run_context(acc, P, _parser.parse_rule)
+    if job['space'] == 'alternating':
+        return run_alternating(acc, P, _parser.parse_rule)
     cls = job['cls']
     w, enf = build(P, _parser.parse_rule, cls)
     lg = logging.getLogger('oslo_policy')
@@ -362,6 +365,59 @@ def _norm(r):
     if kind == 'ret':
         val = bool(val)
     return kind, val, calls
+
+
+def run_alternating(acc, P, parse_rule):
+    """Consecutive calls on ONE enforcer with DIFFERENT credentials and
+    do_raise settings: every sequence of 3 calls over {holds the role, does
+    not} x {do_raise off, on}, for rules that reach their leaf directly,
+    through one reference and through two (by name and as a check object).
+    Each call is judged by its own credentials - also right after a call
+    that ended in an exception."""
+    w = world.FileWorld()
+    try:
+        enf = P.Enforcer(world.new_conf(w.root, policy_dirs=[]))
+        enf.register_defaults([
+            P.RuleDefault('svc:leaf', 'role:r'),
+            P.RuleDefault('svc:via', 'rule:svc:leaf'),
+            P.RuleDefault('svc:via2', 'rule:svc:via or rule:svc:leaf'),
+            P.RuleDefault('svc:nvia', 'not rule:svc:leaf')])
+        enf.load_rules()
+        rules = ['svc:leaf', 'svc:via', 'svc:via2', 'svc:nvia',
+                 parse_rule('rule:svc:via'),
+                 parse_rule('rule:svc:leaf and rule:svc:via2')]
+        calls = [(h, d) for h in (False, True) for d in (False, True)]
+        for rule in rules:
+            neg = rule == 'svc:nvia'
+            for seq in itertools.product(calls, repeat=3):
+                acc.case('alternating', True)
+                for step, (holds, do_raise) in enumerate(seq):
+                    allow = holds != neg
+                    acc.ev()
+                    r = call(P, enf, 'enforce', rule, {},
+                             {'roles': ['r'] if holds else []}, do_raise,
+                             MyExc, (1,), {})
+                    ok = (r[0] == 'ret' and bool(r[1])) if allow else \
+                        ((r[0] == 'myexc') if do_raise else
+                         (r[0] == 'ret' and not r[1]))
+                    if not ok:
+                        acc.violation(
+                            'alternating|%s|%s' % (
+                                'allow' if allow else 'deny',
+                                'raise' if do_raise else 'return'),
+                            'call %d of the sequence %r on rule %s gave %r '
+                            '(the caller %s the role, do_raise=%s)' %
+                            (step + 1, seq, rule, r, 'holds' if holds else
+                             'lacks', do_raise),
+                            {'rule': str(rule), 'sequence': [list(x) for x
+                                                             in seq]},
+                            'allow' if allow else 'deny', r, 'alternating')
+                        break
+                acc.outcome('alternating')
+    finally:
+        w.destroy()
+    acc.sample('alternating', {'rules': [str(r) for r in rules]})
+    return acc.result()
 
 
 def run_context(acc, P, parse_rule):
